@@ -6,6 +6,7 @@ import (
 	"os"
 	"path/filepath"
 	"sort"
+	"strconv"
 	"strings"
 	"sync"
 
@@ -46,6 +47,11 @@ type k2Call struct {
 	Impl      string   `json:"implementation"`
 	Model     string   `json:"model"`
 	SpecDiff  string   `json:"specification,omitempty"`
+	// the model's first answer, when another iteration order of the argument's maps gave the implementation's answer
+	ModelFirst string `json:"model_first_order,omitempty"`
+	MapOrder   int    `json:"map_order_variant,omitempty"`
+	node       *sx.Node
+	oc         *gvx.ConvOutcome
 }
 
 type k2Result struct {
@@ -60,6 +66,9 @@ type k2Result struct {
 	GenCompared int
 	// converters whose whole plan passes PlanCheck.checkProg (the hypothesis of the composite theorem of C02)
 	InFragment, FragmentAsked int
+	// failing calls on which implementation and model chose different entries of a map (Go's iteration order is unspecified):
+	// resolved by re-running the model on the other iteration orders
+	MapOrderResolved, MapOrderTried int
 }
 
 // runK2 generates, compiles and executes the batches; for every call it returns the implementation's and the model's answer.
@@ -224,7 +233,8 @@ func runK2(e *env, name string, batches []*k2Batch) (*k2Result, error) {
 						}
 						lines = append(lines, sx.H("call", append([]*sx.Node{sx.S(key)}, args...)...).String())
 						callsNode.Add(sx.H("call", append([]*sx.Node{sx.S(m.Name)}, args...)...))
-						kc := &k2Call{Batch: kb.Tag, Converter: k2.ConvKey(oc), Source: kb.Convs[oc.Raw.InterfaceName], Method: m.Name, Values: argStrs}
+						kc := &k2Call{Batch: kb.Tag, Converter: k2.ConvKey(oc), Source: kb.Convs[oc.Raw.InterfaceName], Method: m.Name, Values: argStrs,
+							node: sx.H("call", append([]*sx.Node{sx.S(m.Name)}, args...)...), oc: oc}
 						calls = append(calls, kc)
 						mine = append(mine, kc)
 					}
@@ -280,6 +290,10 @@ func runK2(e *env, name string, batches []*k2Batch) (*k2Result, error) {
 					}
 				}
 			}
+			if err := resolveMapOrder(res, &mu, calls, failNode); err != nil {
+				fail(err)
+				return
+			}
 			mu.Lock()
 			res.Calls = append(res.Calls, calls...)
 			res.Generated += len(reqs)
@@ -290,10 +304,72 @@ func runK2(e *env, name string, batches []*k2Batch) (*k2Result, error) {
 	if firstErr != nil {
 		return nil, firstErr
 	}
+	if res.MapOrderTried > 0 {
+		e.rep.Note("%s: %d failing calls where implementation and model first disagreed and an argument holds a map with several entries (Go's iteration order is unspecified): re-run on the other iteration orders in the model, %d agree under one of them, the others are reported", name, res.MapOrderTried, res.MapOrderResolved)
+	}
 	sort.SliceStable(res.Calls, func(i, j int) bool {
 		return res.Calls[i].Converter+res.Calls[i].Batch < res.Calls[j].Converter+res.Calls[j].Batch
 	})
 	return res, nil
+}
+
+// resolveMapOrder: Go iterates maps in an unspecified order, so when several entries of a map make a conversion fail (or
+// panic), the failure a call reports depends on the order.  For every call on which implementation and model disagree, one of
+// them did not succeed and an argument holds a map, the model is asked again for the other iteration orders (rotations of
+// every map, enumerated in mixed radix); the implementation's answer is accepted when one order produces it.
+func resolveMapOrder(res *k2Result, mu *sync.Mutex, calls []*k2Call, failNode *sx.Node) error {
+	const maxVariants = 512
+	for _, c := range calls {
+		if c.Impl == c.Model || c.Model == "" || c.node == nil || !strings.Contains(c.node.String(), "(mp ") {
+			continue
+		}
+		if strings.HasPrefix(c.Impl, "(ok") && strings.HasPrefix(c.Model, "(ok") {
+			continue
+		}
+		if !strings.HasPrefix(c.Model, "(ok") && !strings.HasPrefix(c.Model, "(err") && !strings.HasPrefix(c.Model, "(panic") {
+			continue
+		}
+		mu.Lock()
+		res.MapOrderTried++
+		mu.Unlock()
+		variants := 2
+		for k := 1; k < variants && k < maxVariants; {
+			var reqs []*sx.Node
+			hi := k + 64
+			for ; k < hi && k < variants && k < maxVariants; k++ {
+				req, _ := gvx.GenRequest(0, c.oc.Conv)
+				req.L[0] = sx.A("eval")
+				req.Add(failNode, sx.H("calls", c.node), sx.H("maprot", sx.I(k)))
+				reqs = append(reqs, req)
+			}
+			ans, err := drv.Run(reqs)
+			if err != nil {
+				return err
+			}
+			found := false
+			for i, a := range ans {
+				if a.Head() != "ok" || len(a.Args()) == 0 || len(a.Args()[0].L) < 3 {
+					continue
+				}
+				r := a.Args()[0]
+				if n, err := strconv.Atoi(r.L[2].L[1].S); err == nil && n > variants {
+					variants = n
+				}
+				if r.L[1].String() == c.Impl {
+					c.ModelFirst, c.Model, c.MapOrder = c.Model, c.Impl, k-len(ans)+i
+					found = true
+					break
+				}
+			}
+			if found {
+				mu.Lock()
+				res.MapOrderResolved++
+				mu.Unlock()
+				break
+			}
+		}
+	}
+	return nil
 }
 
 var _ = types.Unalias
